@@ -48,6 +48,22 @@ fn ilv_programs() -> Vec<Program> {
         p.quiesce_sweeps = false;
         v.push(p);
     }
+    // a TTL-only request on a key that is being evicted / swept at that moment: its weight entry goes first, its store
+    // entry afterwards, so the caller can find the key stored but not charged
+    for (name, init_a, req) in [
+        ("evicting-put(c, w=W) || upsert(a, add ttl)", put(1, 2), ups(1, false, None, Some(5000), false)),
+        ("evicting-put(c, w=W) || upsert(a, change ttl)", put_ttl(1, 2, 9000), ups(1, false, None, Some(5000), false)),
+        ("evicting-put(c, w=W) || upsert(a, value)", put(1, 2), ups(1, true, None, None, false)),
+    ] {
+        let mut p = mk(name, 3, vec![init_a, put(2, 1)], vec![vec![put(3, 3)], vec![req]]);
+        p.tolerate_value_missing = true;
+        v.push(p);
+    }
+    {
+        let mut p = mk("{tick} sweeping a || upsert(a, remove ttl) (a weighs 30)", 100, vec![put_ttl(1, 30, 1000), adv(3000)], vec![vec![Op::Tick], vec![ups(1, false, None, None, true)]]);
+        p.tolerate_value_missing = true;
+        v.push(p);
+    }
     v.push(mk("evicting-put(c, w=W) || get(a);get(a) || {tick}", 3, vec![put_ttl(1, 2, 1000), put(2, 1), adv(3000)], vec![vec![put(3, 3)], vec![get(1), get(2)], vec![Op::Tick]]));
     v
 }
